@@ -56,6 +56,15 @@ pub fn gen(tier: &str, r: &mut Rng, emit: &mut dyn FnMut(Vec<u64>)) {
     for k in 0..64u32 { let p = 1u64 << k; sizes.extend([p.wrapping_sub(1), p, p.wrapping_add(1)]); }
     sizes.push(u64::MAX);
     sizes.extend([(1u64 << 32) + 16, (1u64 << 32) + 1024, (1u64 << 32) + 4095, (1u64 << 33) + 256, (1u64 << 16) + 64, (1u64 << 48) + 512, (3u64 << 32) + 32]);
+    // consecutive calls: a refused size that is congruent to a valid one modulo some power of two, then the valid one
+    // (and the other way round); the result of a call depends on its arguments alone
+    for k in [8u32, 16, 24, 28, 32, 40, 48, 56, 60, 63] { for e in 4..=10u32 {
+        let valid = 1u64 << e;
+        for first in [(1u64 << k).wrapping_add(valid), (1u64 << k) | valid | 1, valid << 8, valid | (valid << (k % 50))] {
+            emit(vec![2, 0, 0, first]); emit(vec![2, 3, 1, valid]);
+            emit(vec![2, 3, 1, valid]); emit(vec![2, 0, 0, first]);
+        }
+    } }
     for &n in nums.iter() { for &s in sizes.iter() {
         if !thorough && n > 1 && n < 65535 && s > 70 && s % 13 != 0 && (s & (s - 1)) != 0 { continue; }
         emit(vec![2, n, r.below(2), s]);
